@@ -287,6 +287,7 @@ def run(repo, rep):
     from . import ctxmodel
     n += ctxmodel.report(repo, rep, 'C10.d', lambda k: 'max_seq_len' in k or k.endswith(':returns-new-context'),
                          'nested containers would not see the configured max_seq_len')
+    n += ctxmodel.construction_sites(repo, rep, 'C10.d', 'the configured max_seq_len must reach every nested container')
     rep.floor('C10.d', n, 12)
 
     # ---------------------------------------------------------------- C10.e coverage
